@@ -68,6 +68,7 @@ type replayJob struct {
 	// sequenced replay: the schedule and the instrumented source files
 	schedOps     json.RawMessage
 	extraOverlay map[string][]byte
+	stalled      string // the sequencer's message if this replay stalled and was repeated without it
 }
 
 func makeWitness(prop string, hr *HarnessResult, p *PathResult, tier int) witnessFile {
@@ -170,7 +171,7 @@ func (r *CheckRun) runNative(pkgDir string, jobs []*replayJob) error {
 		f := filepath.Join(tmp, "vfsched.go")
 		os.WriteFile(f, seqSrc, 0o644)
 		ov[filepath.Join(r.Repo, "internal", "vfsched", "vfsched.go")] = f
-		glue := fmt.Sprintf("package %s\n\nimport vfsched %q\n\nfunc init() {\n\tvfSchedLoad, vfSchedChild, vfSchedEnter, vfSchedReport = vfsched.Load, vfsched.ChildID, vfsched.Enter, vfsched.Report\n}\n", pkgName, r.modulePath()+"/internal/vfsched")
+		glue := fmt.Sprintf("package %s\n\nimport vfsched %q\n\nfunc init() {\n\tvfSchedLoad, vfSchedChild, vfSchedEnter, vfSchedReport, vfSchedStallFile = vfsched.Load, vfsched.ChildID, vfsched.Enter, vfsched.Report, vfsched.SetStallFile\n}\n", pkgName, r.modulePath()+"/internal/vfsched")
 		gf := filepath.Join(tmp, "zz_verif_schedglue.go")
 		os.WriteFile(gf, []byte(glue), 0o644)
 		ov[filepath.Join(r.Repo, pkgDir, "zz_verif_schedglue.go")] = gf
@@ -231,36 +232,95 @@ func (r *CheckRun) runNative(pkgDir string, jobs []*replayJob) error {
 				missing = append(missing, j)
 			}
 		}
-		if len(missing) > 0 && len(jobs) > 1 {
-			// one witness crashed the test binary (e.g. a deadlock in the bubble): run the
-			// ones without output one by one so a single crash cannot hide the others
-			if len(missing) > 40 {
-				missing = missing[:40]
+		if len(missing) == 0 {
+			return nil
+		}
+		// the instrumented sources of the whole batch (attached to one of its jobs)
+		union := map[string][]byte{}
+		for _, j := range jobs {
+			for p, src := range j.extraOverlay {
+				union[p] = src
 			}
-			for _, j := range missing {
+		}
+		rerun := func(j *replayJob, sequenced bool) {
+			b, err := os.ReadFile(j.wf)
+			if err != nil {
+				return
+			}
+			if !sequenced {
+				var w witnessFile
+				if json.Unmarshal(b, &w) == nil {
+					w.SchedOps = nil
+					b, _ = json.Marshal(w)
+				}
+			}
+			keep := filepath.Join(os.TempDir(), fmt.Sprintf("gosmt-single-%d.witness.json", os.Getpid()))
+			os.WriteFile(keep, b, 0o644)
+			defer os.Remove(keep)
+			single := &replayJob{hr: j.hr, path: j.path, wf: keep}
+			if sequenced && j.schedOps != nil {
+				single.extraOverlay = union
+			}
+			err = r.runNative(pkgDir, []*replayJob{single})
+			if single.out != nil {
+				j.out = single.out
+			} else if err != nil {
+				j.err = "native run crashed: " + tail(err.Error(), 12)
+			}
+		}
+		// replays the sequencer gave up on (marker file): once more without it
+		var rest []*replayJob
+		for _, j := range missing {
+			of := strings.TrimSuffix(j.wf, ".witness.json") + ".out.json"
+			if msg, err := os.ReadFile(of + ".stalled"); err == nil {
+				j.stalled = string(msg)
+				rerun(j, false)
+				if j.out != nil {
+					j.out.SchedReport = j.stalled
+				}
+				continue
+			}
+			rest = append(rest, j)
+		}
+		if len(rest) == 0 {
+			return nil
+		}
+		if len(jobs) == 1 {
+			return fmt.Errorf("native run failed (%v):\n%s", runErr, tail(outb.String(), 40))
+		}
+		if len(rest) < len(jobs) {
+			// the run ended early (a stalled schedule or a crash in one witness): the
+			// remaining witnesses go through one more batch
+			var again []*replayJob
+			for _, j := range rest {
 				b, err := os.ReadFile(j.wf)
 				if err != nil {
 					continue
 				}
-				keep := filepath.Join(os.TempDir(), fmt.Sprintf("gosmt-single-%d.witness.json", os.Getpid()))
+				keep := filepath.Join(os.TempDir(), fmt.Sprintf("gosmt-rest-%d-%d.witness.json", os.Getpid(), len(again)))
 				os.WriteFile(keep, b, 0o644)
-				single := &replayJob{hr: j.hr, path: j.path, wf: keep}
-				if j.schedOps != nil {
-					_, single.extraOverlay, _ = r.buildSchedule(j.path.Ops)
-				}
-				err = r.runNative(pkgDir, []*replayJob{single})
-				os.Remove(keep)
-				if single.out != nil {
-					j.out = single.out
-				} else if err != nil {
-					j.err = "native run crashed: " + tail(err.Error(), 12)
+				defer os.Remove(keep)
+				again = append(again, &replayJob{hr: j.hr, path: j.path, wf: keep, schedOps: j.schedOps})
+			}
+			if len(again) > 0 && len(union) > 0 {
+				again[0].extraOverlay = union
+			}
+			err := r.runNative(pkgDir, again)
+			for i, j := range rest {
+				if i < len(again) {
+					j.out, j.err = again[i].out, again[i].err
 				}
 			}
-			return nil
+			return err
 		}
-		if len(missing) > 0 {
-			return fmt.Errorf("native run failed (%v), %d/%d witnesses without output:\n%s", runErr, len(missing), len(jobs), tail(outb.String(), 40))
+		// nothing at all came back: one by one, so that a single crash cannot hide the others
+		if len(rest) > 40 {
+			rest = rest[:40]
 		}
+		for _, j := range rest {
+			rerun(j, true)
+		}
+		return nil
 	}
 	return nil
 }
